@@ -50,6 +50,9 @@ func (g *GTPv1U) DecodeFromBytes(data []byte, df gopacket.DecodeFeedback) error 
 	if dLen < hLen {
 		return fmt.Errorf("GTP packet too small: %d bytes", dLen)
 	}
+	// the sequence number and N-PDU number are optional and the extension
+	// headers are appended below: do not keep those of an earlier decode
+	*g = GTPv1U{}
 	g.Version = (data[0] >> 5) & 0x07
 	g.ProtocolType = (data[0] >> 4) & 0x01
 	g.Reserved = (data[0] >> 3) & 0x01
